@@ -422,7 +422,7 @@ def check_property(prop, tier="quick", seed=0, only=None, verbose=False, record_
             print(msg)
 
     write_evidence(prop, tier, seed, cts, per_contract, obligations, n_obl, n_dis, tot_paths, vc, samples,
-                   wall, len(vio_seen), known_hits, undecided, errors, jobs, sampled_runs, all_notes)
+                   wall, len(vio_seen), known_hits, undecided, errors, jobs, sampled_runs, all_notes, cov_tot)
 
     if record_baseline and not violations and not errors and not undecided:
         baseline[prop] = {"%s::%s" % k: v["status"] for k, v in sorted(obligations.items())}
@@ -463,7 +463,7 @@ def _jsonable(p):
 
 
 def write_evidence(prop, tier, seed, cts, per_contract, obligations, n_obl, n_dis, tot_paths, vc, samples,
-                   wall, n_viol, known_hits, undecided, errors, jobs, sampled_runs=0, notes=()):
+                   wall, n_viol, known_hits, undecided, errors, jobs, sampled_runs=0, notes=(), cover=None):
     lv = LEVELS.get(prop, {})
     level = lv.get("level", "other")
     modes = sorted({c.mode for c in cts})
@@ -498,6 +498,7 @@ def write_evidence(prop, tier, seed, cts, per_contract, obligations, n_obl, n_di
             bounded_count=n_obl - len(u_obl),
             sampled_native_runs=sampled_runs,
             notes=list(notes),
+            cover_points={"%s :: %s" % k: v for k, v in sorted(cover.items())} if cover else {},
             shapes=[dict(contract=j["cid"], params=_jsonable({k: v for k, v in j["params"].items() if not k.startswith("_")})) for j in jobs if not j.get("sample")][:200],
             backends=dict(z3=vc["z3"], cvc5=vc["cvc5"], trivially_true=vc["trivial"], solver_seconds=round(vc["solver_s"], 3)),
             per_contract={cid: dict(jobs=pc["jobs"], paths=pc["paths"], wall_s=round(pc["wall"], 2), obligations=len(pc["labels"])) for cid, pc in per_contract.items()},
